@@ -15,6 +15,11 @@ def _init(base, env, judge_mod):
     _base = os.path.join(base, "w%d" % os.getpid())
     _env = env
     _runner = cli.Runner(_base, env=env)
+    if env and "TZ" in env:
+        # the reference renderer in this worker must use the same zone as the tool
+        import time
+        os.environ["TZ"] = env["TZ"]
+        time.tzset()
     import importlib
     _judge = importlib.import_module(judge_mod)
 
